@@ -615,6 +615,11 @@ func corpus() []caseT {
 		{Kind: "between", T1: t1, T2: t2, E: []*x.Ex{a, li(1), li(2)}},
 		// known: BETWEEN in the select list vs the pair of comparisons on decimals of another scale
 		{Kind: "between", T1: t1, T2: t2, E: []*x.Ex{dd, x.Lit(x.Dec(1495, 3), "dec"), x.Lit(x.Dec(1499, 3), "dec")}},
+		// known: hashed IN takes its comparison type from the first element (1.50 rounded to 2 matches a = 2)
+		{Kind: "in-or", T1: t1, T2: t2, E: []*x.Ex{a, li(0), x.Lit(x.Dec(150, 2), "dec")}},
+		// known: the planbuilder rounds a literal compared with a column to the column's scale; literal against literal is exact
+		{Kind: "literal-column", T1: t1, T2: t2, E: []*x.Ex{x.Bin("cmp", "=", dd, x.Lit(x.Dec(1495, 3), "dec"))}},
+		{Kind: "between", T1: t1, T2: t2, E: []*x.Ex{x.Lit(x.Dec(2254, 3), "dec"), x.Lit(x.Dec(200, 2), "dec"), dd}},
 		{Kind: "between", T1: t1, T2: t2, Wrap: "not", E: []*x.Ex{a, x.Lit(x.Null(), "null"), li(3)}},
 		{Kind: "between", T1: t1, T2: t2, Wrap: "isnotnull", E: []*x.Ex{a, x.Lit(x.Null(), "null"), li(2)}},
 		{Kind: "in-or", T1: t1, T2: t2, E: []*x.Ex{dd, li(10), li(20), li(0)}},
